@@ -26,7 +26,7 @@ def main():
     a = ap.parse_args()
     d = os.path.abspath(a.dir)
     meta = json.load(open(os.path.join(d, "meta.json")))
-    props = (a.props.split(",") if a.props else [meta["property"]])
+    props = (a.props.split(",") if a.props else [meta["property"]] + list(meta.get("also_check", [])))
     wt = tempfile.mkdtemp(prefix="st-%s-" % os.path.basename(d))
     os.rmdir(wt)
     res = {"seeded": os.path.basename(d), "property": meta["property"]}
